@@ -18,6 +18,11 @@ MODULES = [
     "Gnmi.Lemmas.SubscribeStreamInit",
     "Gnmi.Lemmas.CacheFeedTrace",
     "Gnmi.Props.C04Seq",
+    # flow control (gate shut / step / open anywhere in the history): docs/STREAM_SEQ_NOTES.md, "Flow control (C04Gate)"
+    "Gnmi.Lemmas.SubscribeGate",
+    "Gnmi.Props.C04Gate",
+    # finding D25: the witness of what the theorems do not (and cannot) claim
+    "Gnmi.Props.C04Atomic",
 ]
 
 # the STREAM clause of C01 (merge into lib/props_C01.py)
@@ -45,6 +50,21 @@ THEOREMS = ["Gnmi.C04Seq." + t for t in [
     "step_cacheOK", "cacheOK_empty",
     # staying alive; what an ACL drops
     "feed_sub_alive", "streamSub_alive", "lookup_replay_filter", "denied_not_touch",
+]] + ["Gnmi.C04Gate." + t for t in [
+    # histories WITH flow control: (A) pending-extended convergence at every point, (B) convergence once the gate is
+    # open again, (C) the gate-free special case; the queue needs no re-reading; a stale held response is made up for
+    "stream_converges_pending", "stream_converges_pending_exact", "stream_converges_gate_open",
+    "stream_queue_behind_blocked", "stream_queue_fresh", "stale_blocked_requeued",
+    "gate_stays_open", "stream_converges_never_shut", "stream_converges_partial_again",
+    # the run invariant
+    "ghinv_init", "gstep_inv", "grun_inv", "final_ginv",
+    # non-vacuity: a gated history (coalescing behind a held response, gateStep, delete, gateOpen); with the gate
+    # shut `replay out` lags and `replay pend` is the cache
+    "histG_ok", "histG_noStar", "histShut_views", "histShut_out_lags", "histG_views",
+]] + ["Gnmi.SubGate." + t for t in [
+    "qinv_split", "qinv_refresh", "refreshQueue_fresh", "pump_gen_mk", "pumpAll_gen", "pumpAll_blocked",
+    "pinv_pumpAll", "ginv_of_subInv", "PInv.pend_view", "feed_sub_ginv", "pinv_release", "setGate_sub_ginv",
+    "stepGate_sub_ginv", "setGate_eq", "stepGate_eq",
 ]]
 
 THEOREMS_C01 = ["Gnmi.C01." + t for t in [
@@ -58,3 +78,5 @@ THEOREMS_C01 = ["Gnmi.C01." + t for t in [
 ]] + ["Gnmi.SubStream." + t for t in [
     "pump_outP", "feed_outP", "doWalk_outP", "subscribe_outP",
 ]]
+
+THEOREMS += ["Gnmi.C04Atomic.below_atomic_prefix_stale", "Gnmi.C04Atomic.histA_ok"]
